@@ -270,6 +270,19 @@ func BuildWorld(seed uint64, k Knobs) *World {
 		addBal(u.Addr, "OLT", fund)
 	}
 	addBal(w.Probe.Addr, "OLT", fund)
+	// a second native currency in circulation (VT: zero decimals, registered by every genesis): without holders
+	// every "amount in another registered currency" input dies for lack of funds before it reaches the code that
+	// should have refused it
+	vtFund := *balance.NewAmount(10000000)
+	for _, vk := range w.Validators {
+		addBal(vk.NodeKey.Addr, "VT", vtFund)
+	}
+	for _, vk := range w.Candidates {
+		addBal(vk.NodeKey.Addr, "VT", vtFund)
+	}
+	for _, u := range w.Users {
+		addBal(u.Addr, "VT", vtFund)
+	}
 	addBal(keys.Address(RewardPoolName), "OLT", amt(k.RewardsPoolFund))
 
 	deleg := *delegation.NewDelegationState()
